@@ -73,10 +73,13 @@ func (g *Graph) GetVertex(key string, load bool) *gdbi.Vertex {
 	}
 	table := parts[0]
 	id := parts[1]
+	if g.schema.GetVertex(table) == nil {
+		return nil
+	}
 	gidField := g.schema.GetVertexGid(table)
-	q := fmt.Sprintf("SELECT * FROM %s WHERE %s=%s", table, gidField, id)
+	q := g.db.Rebind(fmt.Sprintf("SELECT * FROM %s WHERE %s=?", table, gidField))
 	data := make(map[string]interface{})
-	row := g.db.QueryRowx(q)
+	row := g.db.QueryRowx(q, id)
 	types, err := rowColumnTypeMap(row)
 	if err != nil {
 		log.WithFields(log.Fields{"error": err}).Error("GetVertex: rowColumnTypeMap")
@@ -107,10 +110,13 @@ func (g *Graph) getTableBackedEdge(key string, load bool) *gripql.Edge {
 	table := parts[0]
 	id := parts[1]
 	edgeSchema := g.schema.GetEdge(table)
+	if edgeSchema == nil || table == "" {
+		return nil
+	}
 	gidField := edgeSchema.GidField
-	q := fmt.Sprintf("SELECT * FROM %s WHERE %s=%s", table, gidField, id)
+	q := g.db.Rebind(fmt.Sprintf("SELECT * FROM %s WHERE %s=?", table, gidField))
 	data := make(map[string]interface{})
-	row := g.db.QueryRowx(q)
+	row := g.db.QueryRowx(q, id)
 	types, err := rowColumnTypeMap(row)
 	if err != nil {
 		log.WithFields(log.Fields{"error": err}).Error("GetEdge: rowColumnTypeMap")
@@ -132,10 +138,25 @@ func (g *Graph) GetEdge(key string, load bool) *gdbi.Edge {
 		return nil
 	}
 	table := parts[0]
+	var edge *gripql.Edge
 	if table == "generated" {
-		return gdbi.NewElementFromEdge(g.getGeneratedEdge(key, load))
+		edge = g.getGeneratedEdge(key, load)
+	} else {
+		edge = g.getTableBackedEdge(key, load)
 	}
-	return gdbi.NewElementFromEdge(g.getTableBackedEdge(key, load))
+	if edge == nil {
+		return nil
+	}
+	return gdbi.NewElementFromEdge(edge)
+}
+
+// queryIn runs q after expanding its "IN (?)" to one bound parameter per id
+func (g *Graph) queryIn(q string, ids []string) (*sqlx.Rows, error) {
+	q, args, err := sqlx.In(q, ids)
+	if err != nil {
+		return nil, err
+	}
+	return g.db.Queryx(g.db.Rebind(q), args...)
 }
 
 // GetVertexList produces a channel of all vertices in the graph
@@ -313,10 +334,13 @@ func (g *Graph) GetVertexChannel(ctx context.Context, reqChan chan gdbi.ElementL
 				idBatch[i] = parts[1]
 				batchMap[batch[i].ID] = append(batchMap[batch[i].ID], batch[i])
 			}
-			ids := strings.Join(idBatch, ", ")
+			if g.schema.GetVertex(table) == nil {
+				log.Errorln("GetVertexChannel: unknown table in ID:", table)
+				continue
+			}
 			gidField := g.schema.GetVertexGid(table)
-			q := fmt.Sprintf("SELECT * FROM %s WHERE %s IN (%s)", table, gidField, ids)
-			rows, err := g.db.Queryx(q)
+			q := fmt.Sprintf("SELECT * FROM %s WHERE %s IN (?)", table, gidField)
+			rows, err := g.queryIn(q, idBatch)
 			if err != nil {
 				log.WithFields(log.Fields{"error": err}).Error("GetVertexChannel: Queryx")
 				return
@@ -377,7 +401,6 @@ func (g *Graph) GetOutChannel(ctx context.Context, reqChan chan gdbi.ElementLook
 				idBatch = append(idBatch, parts[1])
 				batchMap[batch[i].ID] = append(batchMap[batch[i].ID], batch[i])
 			}
-			ids := strings.Join(idBatch, ", ")
 			outgoingEdges := g.schema.GetOutgoingEdges(table, edgeLabels)
 			for _, edgeSchema := range outgoingEdges {
 				q := ""
@@ -385,7 +408,7 @@ func (g *Graph) GetOutChannel(ctx context.Context, reqChan chan gdbi.ElementLook
 				dropKeys := []string{}
 				switch edgeSchema.Table {
 				case "":
-					q = fmt.Sprintf("SELECT %s.%s, %s.%s AS %s_%s FROM %s INNER JOIN %s ON %s.%s=%s.%s WHERE %s.%s IN (%s)",
+					q = fmt.Sprintf("SELECT %s.%s, %s.%s AS %s_%s FROM %s INNER JOIN %s ON %s.%s=%s.%s WHERE %s.%s IN (?)",
 						// SELECT
 						edgeSchema.To.DestTable, "*",
 						edgeSchema.From.DestTable, g.schema.GetVertexGid(edgeSchema.From.DestTable),
@@ -400,13 +423,12 @@ func (g *Graph) GetOutChannel(ctx context.Context, reqChan chan gdbi.ElementLook
 						edgeSchema.To.DestTable, edgeSchema.To.DestField,
 						// WHERE
 						edgeSchema.From.DestTable, g.schema.GetVertexGid(edgeSchema.From.DestTable),
-						ids,
 					)
 					dataKey = fmt.Sprintf("%v_%v", edgeSchema.From.DestTable, g.schema.GetVertexGid(edgeSchema.From.DestTable))
 					dropKeys = append(dropKeys, dataKey)
 
 				default:
-					q = fmt.Sprintf("SELECT %s.%s, %s.%s FROM %s INNER JOIN %s ON %s.%s=%s.%s WHERE %s.%s IN (%s)",
+					q = fmt.Sprintf("SELECT %s.%s, %s.%s FROM %s INNER JOIN %s ON %s.%s=%s.%s WHERE %s.%s IN (?)",
 						// SELECT
 						edgeSchema.To.DestTable, "*",
 						edgeSchema.Table, edgeSchema.From.SourceField,
@@ -419,12 +441,11 @@ func (g *Graph) GetOutChannel(ctx context.Context, reqChan chan gdbi.ElementLook
 						edgeSchema.Table, edgeSchema.To.SourceField,
 						// WHERE
 						edgeSchema.Table, edgeSchema.From.SourceField,
-						ids,
 					)
 					dataKey = edgeSchema.From.SourceField
 					dropKeys = append(dropKeys, edgeSchema.From.SourceField)
 				}
-				rows, err := g.db.Queryx(q)
+				rows, err := g.queryIn(q, idBatch)
 				if err != nil {
 					log.WithFields(log.Fields{"error": err}).Error("GetOutChannel: Queryx")
 					return
@@ -489,7 +510,6 @@ func (g *Graph) GetInChannel(ctx context.Context, reqChan chan gdbi.ElementLooku
 				idBatch = append(idBatch, parts[1])
 				batchMap[batch[i].ID] = append(batchMap[batch[i].ID], batch[i])
 			}
-			ids := strings.Join(idBatch, ", ")
 			incomingEdges := g.schema.GetIncomingEdges(table, edgeLabels)
 			for _, edgeSchema := range incomingEdges {
 				q := ""
@@ -497,7 +517,7 @@ func (g *Graph) GetInChannel(ctx context.Context, reqChan chan gdbi.ElementLooku
 				dropKeys := []string{}
 				switch edgeSchema.Table {
 				case "":
-					q = fmt.Sprintf("SELECT %s.%s, %s.%s AS %s_%s FROM %s INNER JOIN %s ON %s.%s=%s.%s WHERE %s.%s IN (%s)",
+					q = fmt.Sprintf("SELECT %s.%s, %s.%s AS %s_%s FROM %s INNER JOIN %s ON %s.%s=%s.%s WHERE %s.%s IN (?)",
 						// SELECT
 						edgeSchema.From.DestTable, "*",
 						edgeSchema.To.DestTable, g.schema.GetVertexGid(edgeSchema.To.DestTable),
@@ -512,13 +532,12 @@ func (g *Graph) GetInChannel(ctx context.Context, reqChan chan gdbi.ElementLooku
 						edgeSchema.To.DestTable, edgeSchema.To.DestField,
 						// WHERE
 						edgeSchema.To.DestTable, g.schema.GetVertexGid(edgeSchema.To.DestTable),
-						ids,
 					)
 					dataKey = fmt.Sprintf("%v_%v", edgeSchema.To.DestTable, g.schema.GetVertexGid(edgeSchema.To.DestTable))
 					dropKeys = append(dropKeys, dataKey)
 
 				default:
-					q = fmt.Sprintf("SELECT %s.%s, %s.%s FROM %s INNER JOIN %s ON %s.%s=%s.%s WHERE %s.%s IN (%s)",
+					q = fmt.Sprintf("SELECT %s.%s, %s.%s FROM %s INNER JOIN %s ON %s.%s=%s.%s WHERE %s.%s IN (?)",
 						// SELECT
 						edgeSchema.From.DestTable, "*",
 						edgeSchema.Table, edgeSchema.To.SourceField,
@@ -531,12 +550,11 @@ func (g *Graph) GetInChannel(ctx context.Context, reqChan chan gdbi.ElementLooku
 						edgeSchema.Table, edgeSchema.From.SourceField,
 						// WHERE
 						edgeSchema.Table, edgeSchema.To.SourceField,
-						ids,
 					)
 					dataKey = edgeSchema.To.SourceField
 					dropKeys = append(dropKeys, edgeSchema.To.SourceField)
 				}
-				rows, err := g.db.Queryx(q)
+				rows, err := g.queryIn(q, idBatch)
 				if err != nil {
 					log.WithFields(log.Fields{"error": err}).Error("GetInChannel: Queryx")
 					return
@@ -601,13 +619,12 @@ func (g *Graph) GetOutEdgeChannel(ctx context.Context, reqChan chan gdbi.Element
 				idBatch[i] = parts[1]
 				batchMap[batch[i].ID] = append(batchMap[batch[i].ID], batch[i])
 			}
-			ids := strings.Join(idBatch, ", ")
 			outgoingEdges := g.schema.GetOutgoingEdges(table, edgeLabels)
 			for _, edgeSchema := range outgoingEdges {
 				q := ""
 				switch edgeSchema.Table {
 				case "":
-					q = fmt.Sprintf("SELECT %s.%s, %s.%s FROM %s INNER JOIN %s ON %s.%s=%s.%s WHERE %s.%s IN (%s)",
+					q = fmt.Sprintf("SELECT %s.%s, %s.%s FROM %s INNER JOIN %s ON %s.%s=%s.%s WHERE %s.%s IN (?)",
 						// SELECT
 						edgeSchema.From.DestTable, g.schema.GetVertexGid(edgeSchema.From.DestTable),
 						edgeSchema.To.DestTable, g.schema.GetVertexGid(edgeSchema.To.DestTable),
@@ -620,9 +637,8 @@ func (g *Graph) GetOutEdgeChannel(ctx context.Context, reqChan chan gdbi.Element
 						edgeSchema.To.DestTable, edgeSchema.To.DestField,
 						// WHERE
 						edgeSchema.From.DestTable, g.schema.GetVertexGid(edgeSchema.From.DestTable),
-						ids,
 					)
-					rows, err := g.db.Queryx(q)
+					rows, err := g.queryIn(q, idBatch)
 					if err != nil {
 						log.WithFields(log.Fields{"error": err}).Error("GetOutEdgeChannel: Queryx")
 						return
@@ -648,8 +664,8 @@ func (g *Graph) GetOutEdgeChannel(ctx context.Context, reqChan chan gdbi.Element
 					}
 
 				default:
-					q = fmt.Sprintf("SELECT * FROM %s WHERE %s IN (%s)", edgeSchema.Table, edgeSchema.From.SourceField, ids)
-					rows, err := g.db.Queryx(q)
+					q = fmt.Sprintf("SELECT * FROM %s WHERE %s IN (?)", edgeSchema.Table, edgeSchema.From.SourceField)
+					rows, err := g.queryIn(q, idBatch)
 					if err != nil {
 						log.WithFields(log.Fields{"error": err}).Error("GetOutEdgeChannel: Queryx")
 						return
@@ -711,13 +727,12 @@ func (g *Graph) GetInEdgeChannel(ctx context.Context, reqChan chan gdbi.ElementL
 				idBatch[i] = parts[1]
 				batchMap[batch[i].ID] = append(batchMap[batch[i].ID], batch[i])
 			}
-			ids := strings.Join(idBatch, ", ")
 			incomingEdges := g.schema.GetIncomingEdges(table, edgeLabels)
 			for _, edgeSchema := range incomingEdges {
 				q := ""
 				switch edgeSchema.Table {
 				case "":
-					q = fmt.Sprintf("SELECT %s.%s, %s.%s FROM %s INNER JOIN %s ON %s.%s=%s.%s WHERE %s.%s IN (%s)",
+					q = fmt.Sprintf("SELECT %s.%s, %s.%s FROM %s INNER JOIN %s ON %s.%s=%s.%s WHERE %s.%s IN (?)",
 						// SELECT
 						edgeSchema.From.DestTable, g.schema.GetVertexGid(edgeSchema.From.DestTable),
 						edgeSchema.To.DestTable, g.schema.GetVertexGid(edgeSchema.To.DestTable),
@@ -730,9 +745,8 @@ func (g *Graph) GetInEdgeChannel(ctx context.Context, reqChan chan gdbi.ElementL
 						edgeSchema.To.DestTable, edgeSchema.To.DestField,
 						// WHERE
 						edgeSchema.To.DestTable, g.schema.GetVertexGid(edgeSchema.To.DestTable),
-						ids,
 					)
-					rows, err := g.db.Queryx(q)
+					rows, err := g.queryIn(q, idBatch)
 					if err != nil {
 						log.WithFields(log.Fields{"error": err}).Error("GetInEdgeChannel: Queryx")
 						return
@@ -758,8 +772,8 @@ func (g *Graph) GetInEdgeChannel(ctx context.Context, reqChan chan gdbi.ElementL
 					}
 
 				default:
-					q = fmt.Sprintf("SELECT * FROM %s WHERE %s IN (%s)", edgeSchema.Table, edgeSchema.To.SourceField, ids)
-					rows, err := g.db.Queryx(q)
+					q = fmt.Sprintf("SELECT * FROM %s WHERE %s IN (?)", edgeSchema.Table, edgeSchema.To.SourceField)
+					rows, err := g.queryIn(q, idBatch)
 					if err != nil {
 						log.WithFields(log.Fields{"error": err}).Error("GetInEdgeChannel: Queryx")
 						return
